@@ -139,15 +139,14 @@ def write_label_long(w, n):
     write_label(w, n)
 
 
-@obligation('C10.read_label', 'C10', cases=[{'n': n, 'kind': kd} for n in LABEL_NS for kd in ('short', 'long', 'same')
-                                            if not (kd == 'same' and n == 0)],
+@obligation('C10.read_label', 'C10', cases=[{'n': n, 'kind': kd} for n in LABEL_NS for kd in ('short', 'long', 'same')],
             fuc=[P + 'deserialize_hml', P + 'deserialize_unary', S + 'load_bit', S + 'load_bits', S + 'load_uint'],
             descr='deserialize_hml on EVERY spec-valid label encoding (all three kinds, canonical or not) of a label of length n '
                   '(bits symbolic), every remaining key length m >= n, followed by an opaque rest: returns (n, label) and '
                   'leaves exactly the rest')
 def read_label(w, n, kind):
     P_ = importlib.import_module("pytoniq_core.boc.hashmap.parse")
-    m = w.int('m', max(n, 1) if kind != 'short' else n, 1023)
+    m = w.int('m', n, 1023)        # every remaining key length, m = 0 included (an empty long / same label at a leaf is valid, if not canonical)
     k = m.bit_length()
     if kind == 'same':
         v = w.int('v', 0, 1)
@@ -440,9 +439,9 @@ def parse_foreign(w):
 
     def choose(label, m):
         opts = ['short']
-        if len(label) <= m and m >= 1:
+        if len(label) <= m:
             opts.append('long')
-        if len(label) >= 1 and len(set(label)) == 1:
+        if len(set(label)) <= 1:
             opts.append('same')
         if 2 + 2 * len(label) + 12 + 8 > 1023:
             opts.remove('short')
